@@ -4,7 +4,10 @@ Code under test: `iter_utils.rebatched_args` (+ `_concat`, `_pad`, `_batch_size`
 directly and through `TreeFn._iterate` (`TreeTransform.apply(fn_batch_size=, batch_size=)`,
 `.select(..., batch_size=)`, `.batch(n)`), also with several fn outputs into one output
 key and inside `TreeTransform.new(num_threads=)` pipelines; `iter_utils.iterate_fn`
-(row-wise adapter, alignment clause).
+(row-wise adapter, alignment clause). `vlib/c19w3.py` holds the third widening: assign with
+SELF / Key.Literal / nested-path inputs (also under ignore_error with a following operator)
+and ignorable errors that have to cross a re-batcher (`Assign.iterate`,
+`iter_utils.processed_with_inputs`, the input / output re-batchers of `TreeFn._iterate`).
 
 Oracle: plain Python. Every cell of every column carries a unique id
 (value = 100000 * column + global row index), so the expected output of a re-batching
@@ -19,6 +22,8 @@ from __future__ import annotations
 import itertools
 import random
 import re
+
+from vlib import c19w3
 
 ID = 'C19'
 LEVEL = 'exploration'
@@ -68,7 +73,7 @@ RULE = (
     'fn_batch_size. (literal) apply(fn, inputs = 1-2 columns + one Key.Literal at any '
     'position, positional or keyword) over all size sequences of length <= 3 over sizes '
     '0..3 x 7 literals (scalar, list, tuple, array, empty list) x 7 (a, b), plus random '
-    'cases of which 35% have every input batch as long as the literal')
+    'cases of which 35% have every input batch as long as the literal.' + c19w3.RULE)
 ASSUMPTIONS = [
     'the stream is passed as an iterator (the signature says Iterator; a list is '
     'double-counted by the num_columns inference and is not generated)',
@@ -127,7 +132,7 @@ ASSUMPTIONS = [
     'iterate_fn: the per-row fn is pure apart from time.sleep; its result must be '
     'independent of multithread=; >= 1 row (an empty batch with a 2-output fn cannot be '
     'transposed and is not generated)',
-]
+] + c19w3.ASSUMPTIONS
 REQUIRED = ['direct_checks', 'concat_checks', 'size_checks', 'alignment_checks',
             'pad_checks', 'infer_checks', 'given_columns_checks',
             'empty_stream_checks', 'zero_size_batch_checks', 'passthrough_checks',
@@ -142,7 +147,7 @@ REQUIRED = ['direct_checks', 'concat_checks', 'size_checks', 'alignment_checks',
             'bad_record_selection_error_checks', 'bad_record_none_column_checks',
             'bad_record_scalar_column_checks', 'bad_record_unequal_columns_checks',
             'literal_checks', 'literal_fn_batch_checks', 'literal_scalar_checks',
-            'literal_sequence_checks', 'literal_batch_length_checks']
+            'literal_sequence_checks', 'literal_batch_length_checks'] + c19w3.REQUIRED
 EXHAUSTIVE = {'quick': True, 'thorough': True}
 CHUNK_TIMEOUT_S = {'quick': 240, 'thorough': 3000}
 
@@ -1161,8 +1166,8 @@ def _error_chain(e):
 
 
 def _names_size_mismatch(e):
-  """A ValueError / TypeError whose text talks about batch sizes / row counts."""
-  if not isinstance(e, (ValueError, TypeError)):
+  """A ValueError / TypeError / RuntimeError whose text talks about batch sizes / rows."""
+  if not isinstance(e, (ValueError, TypeError, RuntimeError)):
     return False
   text = ' '.join(_error_chain(e)).lower()
   return any(w in text for w in _SIZE_WORDS)
@@ -1907,6 +1912,9 @@ def plan(tier, seed):
                         ('literal_random', 500)):
       widened.append({'mode': mode, 'rseed': seed, 'index': i,
                       'count': count * (8 if thorough else 1)})
+  # third widening (vlib/c19w3.py): assign with SELF / literal / nested inputs, also
+  # under ignore_error; ignorable errors that have to cross a re-batcher
+  widened.extend(c19w3.plan(tier, seed))
   # Started first: the sleeping / barrier cases need wall time, not CPU, and the
   # first witnesses of a run then cover every widened input class.
   first = [threaded[1], threaded[-1], multi[2]] + [
@@ -1971,6 +1979,8 @@ def run_chunk(ctx, spec):
       _run_literal_sweep(ctx, cnt, spec)
     elif mode == 'literal_random':
       _run_literal_random(ctx, cnt, spec)
+    elif mode.startswith('w3_'):
+      c19w3.run_chunk(ctx, cnt, spec)
     elif mode == 'ragged_sweep':
       _run_ragged_sweep(ctx, cnt, spec)
     elif mode == 'ragged_random':
@@ -2007,6 +2017,8 @@ def run_case(ctx, case):
       check_bad_record(ctx, cnt, case)
     elif api == 'literal':
       check_literal(ctx, cnt, case)
+    elif api in ('assign_w3', 'skiperr'):
+      c19w3.run_case(ctx, cnt, case)
     else:
       check_pipeline(ctx, cnt, case)
   finally:
